@@ -464,14 +464,14 @@ def gather(ctx):
     if tier == "thorough":
         loopy = [g for g in sysg if "maybe_loop" in g.tags]
         rest = [g for g in sysg if "maybe_loop" not in g.tags]
-        sysg = rnd.sample(loopy, min(len(loopy), 600)) + rnd.sample(rest, min(len(rest), 700))
+        sysg = rnd.sample(loopy, min(len(loopy), 300)) + rnd.sample(rest, min(len(rest), 300))
     else:
         # quick: every loop construct of the shared systematic corpus, every other one of the rest
         loopy = [g for g in sysg if g.tags & {"loop", "maybe_loop"}]
         rest = [g for g in sysg if not (g.tags & {"loop", "maybe_loop"})]
         sysg = loopy + rest[::2]
     grams = list(sysg)
-    nr = 40 if tier == "quick" else 200
+    nr = 40 if tier == "quick" else 100
     grams += corpus.random_grammars(seed, nr, start_gid=200000)
     grams += corpus.random_grammars(seed + 7919, nr // 2, start_gid=300000, classical_only=True)
     grams += illformed(tier, seed, 400000)
